@@ -44,6 +44,7 @@ struct Val {
   Eigen::MatrixXf mf;
   std::vector<Eigen::Vector3d> vv;
   std::vector<Row> rows;
+  bool compact = false;  // TBL: openTable(name, nRows, compact=true)
   int tblmode = 0;       // TBL: 0 = table.write(vector) as xtp does, 1 = writeToRow() row by row, 2 = two chunks write(buf,0,k), write(buf+k,k,n)
   Eigen::MatrixXd m2, m3;  // ESYS: eigenvalues in m, eigenvectors in m2, eigenvectors2 in m3; info in n
 };
@@ -241,6 +242,7 @@ static void build_alphabet() {
 // ---- sized container values: every container kind the API stores, with element counts that cross
 // 0,1,2,9,10,11,12,99,100,101 (thorough also 250, 1001), every element distinct.  They are not part of the
 // general op alphabet (that would square the pair counts); the "sizes" phase enumerates them on their own.
+static Eigen::MatrixXd seq(long r, long c, double seed) { Eigen::MatrixXd m(r, c); for (long i = 0; i < r; i++) for (long k = 0; k < c; k++) m(i, k) = seed + double(i * c + k); return m; }
 static int NBASE = 0;
 static const long SIZES[12] = {0, 1, 2, 9, 10, 11, 12, 99, 100, 101, 250, 1001};
 struct SizedGroup { std::string name; std::vector<std::vector<int>> variants; bool table = false; };  // variants[j][size index]
@@ -250,7 +252,11 @@ static void build_sized() {
   auto lab = [](const std::string &pre, long n, bool b) { return pre + "#" + std::to_string(n) + (b ? "b" : ""); };
   auto group = [&](const std::string &name, int nvar, bool table, std::function<Val(long, int)> make) {
     SizedGroup g; g.name = name; g.table = table; g.variants.resize(nvar);
-    for (int j = 0; j < nvar; j++) for (long n : SIZES) { Val v = make(n, j); g.variants[j].push_back((int)ALPHA.size()); add(v); }
+    for (int j = 0; j < nvar; j++) for (long n : SIZES) {
+      Val v = make(n, j);
+      if (v.label.empty()) { g.variants[j].push_back(-1); continue; }  // size not available in this variant
+      g.variants[j].push_back((int)ALPHA.size()); add(v);
+    }
     SIZED.push_back(g);
   };
   group("vector-index", 2, false, [&](long n, int j) { Val v; v.label = lab("vi", n, j); v.kind = VIDX; for (long k = 0; k < n; k++) v.vi.push_back((j ? -1000003L : 7L) + 13 * k); return v; });
@@ -258,7 +264,6 @@ static void build_sized() {
   group("vector-double", 2, false, [&](long n, int j) { Val v; v.label = lab("vd", n, j); v.kind = VDBL; for (long k = 0; k < n; k++) v.vd.push_back(j ? -3.0 - 1.25 * double(k) : 0.5 + double(k)); return v; });
   group("vector-string", 2, false, [&](long n, int j) { Val v; v.label = lab("vs", n, j); v.kind = VSTR; for (long k = 0; k < n; k++) v.vs.push_back((j ? "T" : "s") + std::to_string(k) + std::string(size_t(k % 5), 'x')); return v; });
   group("vec3list", 2, false, [&](long n, int j) { Val v; v.label = lab("q", n, j); v.kind = VV3D; for (long k = 0; k < n; k++) v.vv.push_back(Eigen::Vector3d((j ? 5000.0 : 0.0) + double(k), double(k) + 0.25, -double(k))); return v; });
-  auto seq = [](long r, long c, double seed) { Eigen::MatrixXd m(r, c); for (long i = 0; i < r; i++) for (long k = 0; k < c; k++) m(i, k) = seed + double(i * c + k); return m; };
   group("vectorxd", 2, false, [&](long n, int j) { Val v; v.label = lab("vx", n, j); v.kind = VXD; v.m = seq(n, 1, j ? -7000.5 : 1.0); return v; });
   group("rowvector", 2, false, [&](long n, int j) { Val v; v.label = lab("rv", n, j); v.kind = RVXD; v.m = seq(1, n, j ? -7000.5 : 1.0); return v; });
   group("matrix-Nx2", 2, false, [&](long n, int j) { Val v; v.label = lab("mc", n, j); v.kind = MXD; v.m = seq(n, 2, j ? -9000.25 : 2.0); return v; });
@@ -267,12 +272,25 @@ static void build_sized() {
   group("matrix-0xN", 2, false, [&](long n, int j) { Val v; v.label = lab("zm", n, j); v.kind = MXD; v.m = Eigen::MatrixXd(0, n); return v; });
   group("matrixf-Nx2", 2, false, [&](long n, int j) { Val v; v.label = lab("mf", n, j); v.kind = MXF; v.mf = seq(n, 2, j ? -4000.5 : 2.0).cast<float>(); return v; });
   group("eigensystem", 2, false, [&](long n, int j) { Val v; v.label = lab("es", n, j); v.kind = ESYS; v.m = seq(n, 1, j ? -11.5 : 0.5); v.m2 = seq(n, 2, j ? 70000.0 : 3.0); v.m3 = seq(n, 1, j ? -70000.0 : -3.0); v.n = int((n + j) % 3); return v; });
-  // tables: variant 0/1 whole-table write (two contents), 2 row by row, 3 two chunks
-  group("table", 4, true, [&](long n, int j) {
-    Val v; v.label = lab(j == 2 ? "tr" : (j == 3 ? "tc" : "t"), n, j == 1); v.kind = TBL; v.tblmode = j <= 1 ? 0 : j - 1;
+  // tables: variant 0/1 whole-table write (two contents), 2 row by row, 3 two chunks, 4 compact layout (libhdf5 caps compact data at 64 KiB)
+  group("table", 5, true, [&](long n, int j) {
+    Val v;
+    if (j == 4 && n > 500) return v;
+    v.label = lab(j == 2 ? "tr" : (j == 3 ? "tc" : (j == 4 ? "tk" : "t")), n, j == 1); v.kind = TBL; v.tblmode = (j == 2 || j == 3) ? j - 1 : 0; v.compact = j == 4;
     for (long k = 0; k < n; k++) v.rows.push_back(mkrow((j ? 100000 * j : 0) + k + 1, (j ? "Z" : "E") + std::to_string(k), (j ? -1000.0 * j : 1.0) + 0.5 * double(k)));
     return v;
   });
+  // ---- large values (raw data > 64 KiB, libhdf5's limit for compact datasets), used by the family "proc"
+  { Val v; v.label = "Lm128"; v.kind = MXD; v.m = seq(128, 128, 0.5); add(v); }
+  { Val v; v.label = "Lm1x10000"; v.kind = MXD; v.m = seq(1, 10000, -0.5); add(v); }
+  { Val v; v.label = "Lvd20000"; v.kind = VDBL; for (long k = 0; k < 20000; k++) v.vd.push_back(0.25 + double(k)); add(v); }
+  { Val v; v.label = "Lvi20000"; v.kind = VIDX; for (long k = 0; k < 20000; k++) v.vi.push_back(-5 + 3 * k); add(v); }
+  { Val v; v.label = "Lvs5000"; v.kind = VSTR; for (long k = 0; k < 5000; k++) { std::string e = "s" + std::to_string(k); e.resize(14, '.'); v.vs.push_back(e); } add(v); }
+  { Val v; v.label = "Lmf200x100"; v.kind = MXF; v.mf = seq(200, 100, 1.0).cast<float>(); add(v); }
+  { Val v; v.label = "Lvx10000"; v.kind = VXD; v.m = seq(10000, 1, 2.5); add(v); }
+  { Val v; v.label = "Les10000"; v.kind = ESYS; v.m = seq(10000, 1, 0.5); v.m2 = seq(10000, 1, 9.0); v.m3 = seq(1, 1, -1.0); v.n = 1; add(v); }
+  { Val v; v.label = "Lq300"; v.kind = VV3D; for (long k = 0; k < 300; k++) v.vv.push_back(Eigen::Vector3d(double(k), 0.5 + double(k), -double(k))); add(v); }
+  { Val v; v.label = "Lt4000"; v.kind = TBL; for (long k = 0; k < 4000; k++) v.rows.push_back(mkrow(k + 1, "E" + std::to_string(k), 1.0 + 0.5 * double(k))); add(v); }
 }
 
 // ------------------------------------------------------------------ typed write / read on the real code
@@ -305,7 +323,7 @@ static void write_val(CheckpointWriter &w, const Val &v, const std::string &name
     case VV3D: w(v.vv, name); break;
     case TBL: {
       // the idiom of atomcontainer.h / qmnblist.cc
-      CptTable table = w.openTable<StaticSite>(name, v.rows.size());
+      CptTable table = v.compact ? w.openTable<StaticSite>(name, v.rows.size(), true) : w.openTable<StaticSite>(name, v.rows.size());
       std::vector<StaticSite::data> dv(v.rows.size());
       for (size_t k = 0; k < v.rows.size(); k++) {
         const Row &r = v.rows[k];
@@ -417,7 +435,13 @@ static bool parse_hist(const std::string &cas, char &init, std::vector<Op> &ops)
 
 // Narrow class key of a failure observed at one slot, from an explicit predicate on that slot's write
 // history since the file was last truncated (`w` = alphabet indices in write order, last = current value).
+static std::string slot_key0(const std::vector<int> &w);
 static std::string slot_key(const std::vector<int> &w) {
+  std::string k = slot_key0(w);
+  if (!w.empty() && ALPHA[w.back()].kind == TBL && ALPHA[w.back()].compact) k += "-compact";
+  return k;
+}
+static std::string slot_key0(const std::vector<int> &w) {
   if (w.empty()) return "never-written";
   const Val &cur = ALPHA[w.back()];
   // row-wise / chunk-wise table output: what matters is whether some row is addressed with startIdx > 0
@@ -731,7 +755,7 @@ struct Cand { char init; std::vector<Op> ops; int mode = 0; };  // mode: extra r
 static const char *MODENAME[4] = {"", "dirty", "rowread", "chunkread"};
 static int modeof(const std::string &m) { for (int k = 1; k < 4; k++) if (m == MODENAME[k]) return k; return 0; }
 static std::string candstr(const Cand &c) { return (c.mode ? std::string("mode=") + MODENAME[c.mode] + ";" : "") + histstr(c.init, c.ops); }
-static bool g_poisoned = false;  // child-local; never set: with ASan a memory error kills the child at once (a non-fatal failure leaves the heap intact)
+static bool g_poisoned = false;  // child-local: set after a history that may have changed process-wide libhdf5 state; the rest of the batch is handed to a new child
 static bool g_silenced = false;
 
 // ====================================================================== family "ovl"
@@ -1120,12 +1144,306 @@ static int main_overlap(bsx::Args &a) {
   return 0;
 }
 
+// ====================================================================== family "proc"
+// Process-wide state: what one table creation leaves behind in the process (libhdf5's DEFAULT dataset-creation
+// property list is a process-wide object; a CptTable that calls setLayout(H5D_COMPACT) on a list that still
+// shares the id of DEFAULT makes every later dataset of the process compact, i.e. capped at 64 KiB).
+// One forked child per history (fresh libhdf5 state each time).  Two files A,B (both opened with CREATE at the
+// start), groups r="/" and c="/a/b", names x (values) and t (the table).
+//   T:f:g:k|n:o|d:N  create+write a StaticSite table of N rows under name t; k = compact=true, n = compact=false;
+//                    o = CheckpointWriter::openTable<StaticSite>(name,N,compact), d = public CptTable constructor
+//                    + SetupCptTable + initialize(loc,compact) (what openTable does internally)
+//   W:f:g:<label>    write value <label> under name x (small: one of the sized values, large: > 64 KiB, "L…")
+//   N:f              replace the CheckpointFile object of file f by a new one (MODIFY)
+struct POp { char kind; int file; int grp; char compact; char route; int rows; int val; };
+static const char *PGRP[2] = {"/", "/a/b"};
+static std::string popstr(const POp &o) {
+  std::string s(1, o.kind);
+  s += std::string(":") + "AB"[o.file];
+  if (o.kind == 'N') return s;
+  s += std::string(":") + "rc"[o.grp];
+  if (o.kind == 'T') return s + ":" + o.compact + ":" + o.route + ":" + std::to_string(o.rows);
+  return s + ":" + ALPHA[o.val].label;
+}
+static std::string phiststr(const std::vector<POp> &ops) {
+  std::string s = "fam=proc;ops=";
+  for (size_t k = 0; k < ops.size(); k++) s += (k ? "," : "") + popstr(ops[k]);
+  return s;
+}
+static bool parse_phist(const std::string &cas, std::vector<POp> &ops) {
+  auto m = bsx::kvs(cas);
+  ops.clear();
+  if (m["ops"].empty()) return true;
+  for (auto &t : bsx::split(m["ops"], ',')) {
+    auto f = bsx::split(t, ':');
+    if (f.size() < 2 || f[1].size() != 1) return false;
+    POp o{}; o.kind = f[0][0]; o.file = f[1][0] == 'B';
+    if (o.kind == 'N') { if (f.size() != 2) return false; }
+    else if (o.kind == 'T') { if (f.size() != 6) return false; o.grp = f[2][0] == 'c'; o.compact = f[3][0]; o.route = f[4][0]; o.rows = atoi(f[5].c_str()); }
+    else if (o.kind == 'W') { if (f.size() != 4 || !BYLABEL.count(f[3])) return false; o.grp = f[2][0] == 'c'; o.val = BYLABEL[f[3]]; }
+    else return false;
+    ops.push_back(o);
+  }
+  return true;
+}
+static std::vector<Row> proc_rows(int n, int seed) {
+  std::vector<Row> r;
+  for (int k = 0; k < n; k++) r.push_back(mkrow(1000 * seed + k + 1, "P" + std::to_string(k), 0.25 * seed + k));
+  return r;
+}
+static bool is_large(const Val &v) { return v.label.size() > 1 && v.label[0] == 'L'; }
+
+// class key from the history (parent or child alike): which op failed and what happened before it in the process
+static std::string proc_key(const std::vector<POp> &ops, int step, const std::string &sym) {
+  if (step < 0 || step >= (int)ops.size()) return "proc-" + sym;
+  std::string before = "no-table";
+  for (int k = 0; k < step; k++)
+    if (ops[k].kind == 'T') {
+      std::string b = std::string(ops[k].compact == 'k' ? "compact" : "noncompact") + "-table-via-" + (ops[k].route == 'o' ? "opentable" : "direct-ctor");
+      if (before == "no-table" || ops[k].compact == 'k') before = b;
+    }
+  const POp &op = ops[step];
+  if (op.kind == 'T') return std::string("table-") + (op.compact == 'k' ? "compact" : "noncompact") + "-via-" + (op.route == 'o' ? "opentable" : "direct-ctor") + "-" + sym + "-after-" + before;
+  if (op.kind == 'W') return std::string(is_large(ALPHA[op.val]) ? "large" : "small") + "-write-" + sym + "-after-" + before;
+  return "reopen-" + sym + "-after-" + before;
+}
+
+static bsx::Outcome run_proc(const std::vector<POp> &ops, const std::string &base) {
+  bsx::Outcome o;
+  std::string cas = phiststr(ops);
+  std::string fn[2] = {base + "_A.h5", base + "_B.h5"};
+  auto failwith = [&](const std::string &key, const std::string &what) {
+    o.ok = false; o.key = key; o.what = what + "  [" + cas + "]";
+    ::remove(fn[0].c_str()); ::remove(fn[1].c_str());
+    return o;
+  };
+  H5::Exception::dontPrint();
+  // model: per file and group: value written to x (alphabet index) and table written to t (rows, seed)
+  struct Slot { int x = -1; int trows = -1, tseed = 0; };
+  Slot M[2][2];
+  bool grp_c[2] = {false, false};
+  int lastfail_step = -1;
+  try {
+    mark(-1);
+    std::unique_ptr<CheckpointFile> H[2];
+    for (int f = 0; f < 2; f++) { ::remove(fn[f].c_str()); H[f].reset(new CheckpointFile(fn[f], CheckpointAccessLevel::CREATE)); }
+    auto writer = [&](int f, int g) { return g == 0 ? H[f]->getWriter("/") : H[f]->getWriter("/a").openChild("b"); };
+    for (size_t st = 0; st < ops.size(); st++) {
+      const POp &op = ops[st];
+      mark((int)st);
+      lastfail_step = (int)st;
+      if (op.kind == 'N') {
+        H[op.file].reset();
+        try { H[op.file].reset(new CheckpointFile(fn[op.file], CheckpointAccessLevel::MODIFY)); }
+        catch (const std::exception &e) { return failwith(proc_key(ops, (int)st, "rejected"), std::string("re-opening with MODIFY threw: ") + e.what()); }
+      } else if (op.kind == 'T') {
+        std::vector<Row> rows = proc_rows(op.rows, (int)st + 1);
+        try {
+          CheckpointWriter w = writer(op.file, op.grp);
+          if (op.grp == 1) grp_c[op.file] = true;
+          std::vector<StaticSite::data> dv(rows.size());
+          for (size_t k = 0; k < rows.size(); k++) {
+            const Row &r = rows[k]; StaticSite::data &d = dv[k];
+            d.id = r.id; d.element = const_cast<char *>(r.el.c_str()); d.posX = r.pos[0]; d.posY = r.pos[1]; d.posZ = r.pos[2]; d.rank = r.rank;
+            d.Q00 = r.q[0]; d.Q11c = r.q[1]; d.Q11s = r.q[2]; d.Q10 = r.q[3]; d.Q20 = r.q[4]; d.Q21c = r.q[5]; d.Q21s = r.q[6]; d.Q22c = r.q[7]; d.Q22s = r.q[8];
+          }
+          bool compact = op.compact == 'k';
+          if (op.route == 'o') {
+            CptTable table = w.openTable<StaticSite>("t", rows.size(), compact);
+            table.write(dv);
+          } else {
+            // the public constructor, as CheckpointWriter::openTable uses it (the name must be free: every history writes t once per group)
+            CheckpointReader rd = op.grp == 0 ? H[op.file]->getReader("/") : H[op.file]->getReader("/a/b");
+            CptTable table("t", sizeof(StaticSite::data), rows.size());
+            StaticSite::SetupCptTable(table);
+            table.initialize(rd.getLoc(), compact);
+            table.write(dv);
+          }
+          M[op.file][op.grp].trows = op.rows; M[op.file][op.grp].tseed = (int)st + 1;
+        } catch (const std::exception &e) {
+          return failwith(proc_key(ops, (int)st, "rejected"), std::string("creating/writing the ") + (op.compact == 'k' ? "compact" : "non-compact") + " table of " + std::to_string(op.rows) + " rows threw: " + clip(e.what()));
+        }
+      } else {
+        const Val &v = ALPHA[op.val];
+        try {
+          CheckpointWriter w = writer(op.file, op.grp);
+          if (op.grp == 1) grp_c[op.file] = true;
+          write_val(w, v, "x");
+          M[op.file][op.grp].x = op.val;
+        } catch (const std::exception &e) {
+          // is the previous value still there?  (the writer removes the old link before it creates the new dataset)
+          std::string lost;
+          int old = M[op.file][op.grp].x;
+          if (old >= 0) {
+            try { CheckpointReader r = H[op.file]->getReader(PGRP[op.grp]); std::string got = read_canon(r, ALPHA[old].kind, "x", false); if (got != canon(ALPHA[old])) lost = "; the previous value " + ALPHA[old].label + " now reads differently"; }
+            catch (const std::exception &) { lost = "; the previous value " + ALPHA[old].label + " is gone"; }
+          }
+          return failwith(proc_key(ops, (int)st, "rejected"), "write of " + v.label + " (" + kindname[v.kind] + " " + dims(v) + ") to file " + "AB"[op.file] + " " + PGRP[op.grp] + ":x was rejected: " + clip(e.what()) + lost);
+        }
+      }
+    }
+    mark(900);
+    H[0].reset(); H[1].reset();
+    // fresh READ handles on both files
+    for (int f = 0; f < 2; f++) {
+      CheckpointFile fresh(fn[f], CheckpointAccessLevel::READ);
+      for (int g = 0; g < 2; g++) {
+        mark(950 + f * 2 + g);
+        std::string where = std::string("file ") + "AB"[f] + " " + PGRP[g];
+        if (g == 1 && !grp_c[f]) {
+          bool threw = false;
+          try { CheckpointReader r = fresh.getReader("/a/b"); } catch (const std::exception &) { threw = true; }
+          if (!threw) return failwith("never-created-group-opens", where + " was never written but opens");
+          continue;
+        }
+        // which op wrote this slot last (for the key)
+        auto lastop = [&](char kind) { int w = -1; for (size_t k = 0; k < ops.size(); k++) if (ops[k].kind == kind && ops[k].file == f && ops[k].grp == g) w = (int)k; return w; };
+        const Slot &S = M[f][g];
+        if (S.x < 0) {
+          for (Kind k : {IDX, MXD, VV3D}) {
+            bool threw = false;
+            try { CheckpointReader r = fresh.getReader(PGRP[g]); read_canon(r, k, "x", false); } catch (const std::exception &) { threw = true; }
+            if (!threw) return failwith(std::string("never-written-read-succeeds-") + kindname[k], where + ":x was never written but reads as " + kindname[k]);
+          }
+        } else {
+          const Val &v = ALPHA[S.x];
+          std::string expect = canon(v), got;
+          try { CheckpointReader r = fresh.getReader(PGRP[g]); got = read_canon(r, v.kind, "x", false); } catch (const std::exception &e) { got = std::string("EXCEPTION ") + e.what(); }
+          if (got != expect) return failwith(proc_key(ops, lastop('W'), "differs"), "fresh READ handle: " + where + ":x (" + v.label + ") " + diffat(got, expect));
+        }
+        if (S.trows < 0) {
+          bool threw = false;
+          try { CheckpointReader r = fresh.getReader(PGRP[g]); read_canon(r, TBL, "t", false); } catch (const std::exception &) { threw = true; }
+          if (!threw) return failwith("never-written-read-succeeds-table", where + ":t was never written but opens");
+        } else {
+          std::string expect = canon_rows(proc_rows(S.trows, S.tseed)), got;
+          try { CheckpointReader r = fresh.getReader(PGRP[g]); got = read_canon(r, TBL, "t", false); } catch (const std::exception &e) { got = std::string("EXCEPTION ") + e.what(); }
+          if (got != expect) return failwith(proc_key(ops, lastop('T'), "differs"), "fresh READ handle: " + where + ":t " + diffat(got, expect));
+        }
+      }
+    }
+  } catch (const std::exception &e) {
+    return failwith("unexpected-exception", std::string("exception outside any checked call: ") + e.what());
+  }
+  ::remove(fn[0].c_str()); ::remove(fn[1].c_str());
+  std::string key = "proc:";
+  bool anyk = false;
+  for (auto &op : ops) if (op.kind == 'T' && op.compact == 'k') anyk = true;
+  key += anyk ? "K|" : "-|";
+  for (int f = 0; f < 2; f++) for (int g = 0; g < 2; g++) {
+    key += std::string(1, "AB"[f]) + "rc"[g] + "=" + (M[f][g].x >= 0 ? ALPHA[M[f][g].x].label : "-") + "/" + (M[f][g].trows >= 0 ? std::to_string(M[f][g].trows) : "-") + ";";
+  }
+  o.extra = key;
+  o.cls = bsx::fnv(key);
+  return o;
+}
+static std::string proc_fatal_key(const std::vector<POp> &ops, int step) {
+  if (step >= 950) return "proc-crash-in-final-read";
+  if (step == 900) return "proc-crash-closing";
+  return proc_key(ops, step, "crash");
+}
+
+static int main_proc(bsx::Args &a) {
+  if (a.has_case) {
+    std::vector<POp> ops;
+    if (!parse_phist(a.cas, ops)) { fprintf(stderr, "bad case string\n"); return 2; }
+    bsx::Outcome o;
+    *g_step = -2;
+    bsx::contained(0, 1, [&](long long) { return run_proc(ops, "case"); }, [&](long long, const bsx::Outcome &r) { o = r; });
+    ::remove("case_A.h5"); ::remove("case_B.h5");
+    if (o.ok) { printf("case holds\n"); return 0; }
+    if (o.key == "fatal") { o.key = proc_fatal_key(ops, *g_step); o.what += " at step marker " + std::to_string(*g_step); }
+    printf("case FAILS: key=%s %s\n", o.key.c_str(), o.what.c_str());
+    return 3;
+  }
+  bsx::Report R;
+  R.property = "C17"; R.part = "prc"; R.tier = a.tier;
+  bool thorough = a.tier == "thorough";
+  // (large value, small value of the same kind)
+  std::vector<std::pair<const char *, const char *>> kinds = {{"Lm128", "mc#2"}, {"Lvd20000", "vd#2"}, {"Lt4000", "t#2"}};
+  if (thorough) {
+    std::vector<std::pair<const char *, const char *>> more = {{"Lm1x10000", "mr#2"}, {"Lvi20000", "vi#2"}, {"Lvs5000", "vs#2"}, {"Lmf200x100", "mf#2"}, {"Lvx10000", "vx#2"},
+                                                               {"Les10000", "es#2"}, {"Lq300", "q#2"}};
+    kinds.insert(kinds.end(), more.begin(), more.end());
+  }
+  R.rule = "one forked process per history, two HDF5 files A,B (CREATE), groups / and /a/b: [small value to x before] ; create+write a StaticSite table t of 2 rows with compact=true|false through "
+           "CheckpointWriter::openTable or through the public CptTable constructor+initialize, in any of the 4 (file,group) places ; [small value to x after] ; [replace the CheckpointFile object of the "
+           "target file by a new MODIFY one] ; write a LARGE value (> 64 KiB: " + std::string(thorough ? "MatrixXd 128x128 and 1x10000, vector<double>/<Index> 20000, vector<string> 5000, MatrixXf 200x100, VectorXd 10000, EigenSystem 10000, "
+           "vector<Vector3d> 300, table 4000 rows" : "MatrixXd 128x128, vector<double> 20000, table 4000 rows") + ") to x in any of the 4 places: the full product, plus the controls without any table "
+           "and with the large value written first. Oracle: every write succeeds; fresh READ handles on both files return every x and every table t bit-identically, never-written names raise. "
+           "distinct_nontrivial = distinct end states (content of the 4 places + whether a compact table was created in the process)";
+  auto Wop = [&](int f, int g, const char *label) { POp o{}; o.kind = 'W'; o.file = f; o.grp = g; o.val = BYLABEL.at(label); return o; };
+  auto Top = [&](int f, int g, char c, char r, int n) { POp o{}; o.kind = 'T'; o.file = f; o.grp = g; o.compact = c; o.route = r; o.rows = n; return o; };
+  auto Nop = [&](int f) { POp o{}; o.kind = 'N'; o.file = f; return o; };
+  std::vector<std::vector<POp>> H;
+  for (auto &kp : kinds) {
+    const char *L = kp.first, *s = kp.second;
+    // controls
+    for (int wl = 0; wl < 4; wl++) {
+      H.push_back({Wop(wl / 2, wl % 2, L)});
+      H.push_back({Wop(wl / 2, wl % 2, s), Wop(wl / 2, wl % 2, L)});
+      H.push_back({Wop(wl / 2, wl % 2, L), Wop(wl / 2, wl % 2, s)});
+      H.push_back({Wop(wl / 2, wl % 2, L), Top(0, 0, 'k', 'o', 2), Wop(wl / 2, wl % 2, s)});
+    }
+    for (char route : {'o', 'd'}) for (char c : {'k', 'n'})
+      for (int tl = 0; tl < 4; tl++) for (int wl = 0; wl < 4; wl++)
+        for (int pre = 0; pre < 3; pre++) for (int reopen = 0; reopen < 2; reopen++) {
+          std::vector<POp> h;
+          if (pre == 1) h.push_back(Wop(wl / 2, wl % 2, s));
+          h.push_back(Top(tl / 2, tl % 2, c, route, 2));
+          if (pre == 2) h.push_back(Wop(wl / 2, wl % 2, s));
+          if (reopen) h.push_back(Nop(wl / 2));
+          h.push_back(Wop(wl / 2, wl % 2, L));
+          H.push_back(h);
+        }
+  }
+  // table sizes other than 2 (0 rows, and 500 rows = 60 000 bytes, just under the compact limit), compact, both routes
+  for (char route : {'o', 'd'}) for (int n : {0, 1, 500}) for (int wl : {0, 3}) {
+    H.push_back({Top(0, 1, 'k', route, n), Wop(wl / 2, wl % 2, "Lm128")});
+  }
+  long long states = 0, transitions = 0;
+  std::set<std::string> seen;
+  std::vector<long long> mine;
+  for (long long i = 0; i < (long long)H.size(); i++) if (a.mine((long long)(bsx::fnv(phiststr(H[i])) % 1000003ull))) mine.push_back(i);
+  for (long long i : mine) {
+    const auto &h = H[i];
+    bsx::Outcome o;
+    *g_step = -2;
+    bsx::contained(
+        0, 1,
+        [&](long long) {
+          if (!g_silenced) { g_silenced = true; int fd = open("/dev/null", O_WRONLY); if (fd >= 0) { dup2(fd, 2); close(fd); } }
+          return run_proc(h, "p" + std::to_string(i));
+        },
+        [&](long long, const bsx::Outcome &r) { o = r; }, 120);
+    R.eval(); transitions++;
+    std::string cas = phiststr(h);
+    if (!o.ok) {
+      ::remove(("p" + std::to_string(i) + "_A.h5").c_str()); ::remove(("p" + std::to_string(i) + "_B.h5").c_str());
+      if (o.key == "fatal") { o.key = proc_fatal_key(h, *g_step); o.what += " at step marker " + std::to_string(*g_step) + "  [" + cas + "]"; R.counters["children_killed_by_sanitizer_or_signal"]++; }
+      R.fail(o.key, o.what, cas);
+      R.counters["failing_histories"]++;
+      continue;
+    }
+    if (seen.insert(o.extra).second) { states++; R.cls(o.cls); if ((states % 37) == 5) R.sample(cas + " -> state " + o.extra); }
+  }
+  R.counters["histories"] = (long long)mine.size();
+  R.states = states; R.transitions = transitions; R.traces = transitions;
+  R.assumptions = {
+      "every history runs in a process of its own, so that what a table creation leaves behind in libhdf5's process-wide state can only affect its own history",
+      "compact tables are kept below libhdf5's 64 KiB limit for compact datasets (2 rows; 500 rows = 60 000 bytes); a compact table above the limit is refused by libhdf5 and not part of the space",
+      "the public-constructor route writes the table under a name that is still free (CptTable::initialize does not replace an existing dataset)"};
+  if (!R.write(a.out)) { fprintf(stderr, "cannot write %s\n", a.out.c_str()); return 2; }
+  return 0;
+}
+
 int main(int argc, char **argv) {
   build_alphabet();
   build_sized();
   bsx::Args a = bsx::parse(argc, argv);
   g_step = (volatile int *)mmap(nullptr, 4096, PROT_READ | PROT_WRITE, MAP_SHARED | MAP_ANONYMOUS, -1, 0);
   if (g_step == MAP_FAILED) { perror("mmap"); return 2; }
+  if (a.kv["family"] == "proc" || (a.has_case && a.cas.rfind("fam=proc", 0) == 0)) return main_proc(a);
   if (a.kv["family"] == "overlap" || (a.has_case && a.cas.rfind("fam=ovl", 0) == 0)) return main_overlap(a);
   if (a.kv.count("bench")) {  // timing aid: --bench N --hist "<case>"
     Cand c; parse_hist(a.kv["hist"], c.init, c.ops);
@@ -1194,7 +1512,7 @@ int main(int argc, char **argv) {
            ", all pairs of the reduced alphabet (" + std::to_string(deep.size()) + " ops: values i7,dpi,sa,vd3,vd1,m2x3,m3x2,q2,q1,t2) from both starts; depth 3: " + std::to_string(ops3.size()) +
            "-op alphabet" + (thorough ? "; depth 4: " + std::to_string(deepest.size()) + "-op alphabet (i7,vd3,vd1,q2 on /:x,y and /a/b:x,y)" : " (i7,sa,vd3,vd1,m2x3,q2 on /:x,y and /a/b:x,y)") +
            ". Sizes phase: every container kind (vector<Index|int|double|string>, vector<Vector3d>, VectorXd, RowVectorXd, MatrixXd Nx2/2xN/Nx0/0xN, MatrixXf Nx2, tools::EigenSystem, "
-           "CptTable<StaticSite> written whole / row by row with writeToRow / in two chunks) with N in {0,1,2,9,10,11,12,99,100,101" + std::string(thorough ? ",250,1001" : "") + "}, all elements distinct, on /:x and /a/b:x: "
+           "CptTable<StaticSite> written whole / row by row with writeToRow / in two chunks / with compact=true) with N in {0,1,2,9,10,11,12,99,100,101" + std::string(thorough ? ",250,1001" : "") + "}, all elements distinct, on /:x and /a/b:x: "
            "single write (+ re-read into a pre-filled target; tables also re-read with readFromRow and chunked read), every size over every size with different content" +
            std::string(thorough ? ", the same with a MODIFY reopen in between" : "") +
            ". Oracle: std::map model; after each history a fresh READ handle reads every slot: bit-identical payload+shape, "
@@ -1218,6 +1536,8 @@ int main(int argc, char **argv) {
             *g_step = -2;
             const Cand &c = cand[i];
             o = run_history(c.init, c.ops, "h" + std::to_string(depth) + "_" + std::to_string(i) + ".h5", depth <= 1, c.mode);
+            // a compact table creation may leave process-wide libhdf5 state behind: such a history is the last one of its child
+            for (auto &op : c.ops) if (op.kind == 'W' && ALPHA[op.val].compact) g_poisoned = true;
             return o;
           },
           [&](long long i, const bsx::Outcome &res) {
@@ -1324,6 +1644,7 @@ int main(int argc, char **argv) {
         for (size_t j = 0; j < g.variants.size(); j++)
           for (int k = 0; k < NS; k++) {
             int v = g.variants[j][k];
+            if (v < 0) continue;
             push({'C', {W(rt, 0, v)}, 0});
             if (j == 0) push({'C', {W(rt, 0, v)}, 1});
             if (j == 0 && g.table) { push({'C', {W(rt, 0, v)}, 2}); push({'C', {W(rt, 0, v)}, 3}); }
@@ -1331,6 +1652,7 @@ int main(int argc, char **argv) {
         for (int k1 = 0; k1 < NS; k1++)
           for (size_t j = 1; j < g.variants.size(); j++)
             for (int k2 = 0; k2 < NS; k2++) {
+              if (g.variants[j][k2] < 0) continue;
               push({'C', {W(rt, 0, g.variants[0][k1]), W(rt, 0, g.variants[j][k2])}, 0});
               if (thorough) push({'C', {W(rt, 0, g.variants[0][k1]), O('M'), W(rt, 0, g.variants[j][k2])}, 0});
             }
